@@ -30,7 +30,8 @@ PropR == SegN("properties", "r")
 \* root { $id?, $defs.t, properties: {e1: {$id, $defs.t, properties: {in: {$id: inner.json, $defs.t}}},
 \*                                     e2: {$id, $defs.t}} }
 \* exactly one of the four resources carries properties.r = {$ref: R}
-R1Bases   == {EmptyURI, H1(<<"dir", "root.json">>)}
+\* (a directory-style base - path ending in "/" - resolves relative references INSIDE that directory, RFC 3986 5.2.3)
+R1Bases   == {EmptyURI, H1(<<"dir", "root.json">>), H1(<<"dir", "">>)}
 R1RootIds == {<<>>, <<IdOf(RelRef(<<"rid.json">>))>>, <<IdOf(H2(<<"x", "rid.json">>))>>, <<IdOf(URN("root"))>>}
 R1Ids1    == {IdOf(RelRef(<<"e.json">>)), IdOf(RelRef(<<"sub", "e.json">>)), IdOf(H2(<<"e.json">>)), IdOf(URN("e"))}
 R1Ids2    == {IdOf(RelRef(<<"f.json">>)), IdOf(H2(<<"x", "f.json">>))}
